@@ -1,6 +1,269 @@
 package main
 
-// g01Pipeline: tables for C01 (hop-by-hop list, forwarded modifier shape, middleware order).
+import (
+	"fmt"
+	"go/ast"
+	"strings"
+)
+
+// g01Pipeline: tables for C01 — hop-by-hop list, shapes of the hop-by-hop / forwarded /
+// framing modifiers, order of the inner modifier group in middlewareStack, AllowHTTP,
+// shapes of fixRequestScheme / upgradeType / setEmptyUserAgent.
 func g01Pipeline(repo string, w *Out) error {
+	// ---- hop-by-hop
+	f, err := Parse(repo, "internal/martian/header/hopbyhop_modifier.go")
+	if err != nil {
+		return err
+	}
+	e, err := f.ValueSpec("hopByHopHeaders")
+	if err != nil {
+		return err
+	}
+	cl, ok := e.(*ast.CompositeLit)
+	if !ok {
+		return fmt.Errorf("hopByHopHeaders is not a composite literal")
+	}
+	var hop []string
+	for _, el := range cl.Elts {
+		s, ok := StringLit(el)
+		if !ok {
+			return fmt.Errorf("hopByHopHeaders: element %s is not a string literal", f.Src(el))
+		}
+		hop = append(hop, s)
+	}
+	w.DefStrList("hop_by_hop_headers", hop)
+	rh, err := f.Func("removeHopByHopHeaders")
+	if err != nil {
+		return err
+	}
+	src := f.Src(rh.Body)
+	for _, want := range []string{
+		`for _, vs := range header["Connection"] {`,
+		`for _, v := range strings.Split(vs, ",") {`,
+		`k := http.CanonicalHeaderKey(strings.TrimSpace(v))`,
+		`header.Del(k)`,
+		`for _, k := range hopByHopHeaders { header.Del(k) }`,
+	} {
+		if !strings.Contains(src, want) {
+			return fmt.Errorf("removeHopByHopHeaders: expected %q in %q", want, src)
+		}
+	}
+	if len(rh.Body.List) != 2 {
+		return fmt.Errorf("removeHopByHopHeaders: %d top-level statements, expected the two loops", len(rh.Body.List))
+	}
+	// request side of the modifier calls removeHopByHopHeaders(req.Header)
+	mr, err := f.Func("hopByHopModifier.ModifyRequest")
+	if err != nil {
+		return err
+	}
+	if got := f.Src(mr.Body); got != "{ removeHopByHopHeaders(req.Header) return nil }" {
+		return fmt.Errorf("hopByHopModifier.ModifyRequest body is %q", got)
+	}
+
+	// ---- forwarded
+	ff, err := Parse(repo, "internal/martian/header/forwarded_modifier.go")
+	if err != nil {
+		return err
+	}
+	nf, err := ff.Func("NewForwardedModifier")
+	if err != nil {
+		return err
+	}
+	var lit *ast.FuncLit
+	ast.Inspect(nf.Body, func(x ast.Node) bool {
+		if fl, ok := x.(*ast.FuncLit); ok && lit == nil {
+			lit = fl
+		}
+		return true
+	})
+	if lit == nil {
+		return fmt.Errorf("NewForwardedModifier: func literal not found")
+	}
+	var st []string
+	for _, s := range lit.Body.List {
+		st = append(st, ff.Src(s))
+	}
+	wantF := []string{
+		`if req.Method == http.MethodConnect { return nil }`,
+		`if v := req.Header.Get("X-Forwarded-Proto"); v == "" { req.Header.Set("X-Forwarded-Proto", req.URL.Scheme) }`,
+		`if v := req.Header.Get("X-Forwarded-Host"); v == "" { req.Header.Set("X-Forwarded-Host", req.Host) }`,
+		`if v := req.Header.Get("X-Forwarded-Url"); v == "" { req.Header.Set("X-Forwarded-Url", req.URL.String()) }`,
+		`xff, _, err := net.SplitHostPort(req.RemoteAddr)`,
+		`if err != nil { xff = req.RemoteAddr }`,
+		"", // X-Forwarded-For read: two known shapes
+		`req.Header.Set("X-Forwarded-For", xff)`,
+		`return nil`,
+	}
+	if len(st) != len(wantF) {
+		return fmt.Errorf("NewForwardedModifier: %d statements, expected %d: %q", len(st), len(wantF), st)
+	}
+	for i := range st {
+		if i == 6 {
+			switch st[i] {
+			case `if v := req.Header.Get("X-Forwarded-For"); v != "" { xff = v + ", " + xff }`:
+				w.DefBool("xff_reads_all_lines", false)
+			case `if v := strings.Join(req.Header.Values("X-Forwarded-For"), ", "); v != "" { xff = v + ", " + xff }`,
+				`if v := strings.Join(req.Header["X-Forwarded-For"], ", "); v != "" { xff = v + ", " + xff }`:
+				w.DefBool("xff_reads_all_lines", true)
+			default:
+				return fmt.Errorf("NewForwardedModifier: X-Forwarded-For read %q is not a shape the model knows", st[i])
+			}
+			continue
+		}
+		if st[i] != wantF[i] {
+			return fmt.Errorf("NewForwardedModifier: statement %d is %q, expected %q", i, st[i], wantF[i])
+		}
+	}
+
+	// ---- bad framing
+	fr, err := Parse(repo, "internal/martian/header/framing_modifier.go")
+	if err != nil {
+		return err
+	}
+	nb, err := fr.Func("NewBadFramingModifier")
+	if err != nil {
+		return err
+	}
+	srcB := fr.Src(nb.Body)
+	for _, want := range []string{
+		`cls := req.Header["Content-Length"]`,
+		`for _, l := range strings.Split(ls, ",") {`,
+		`if length == "" { length = strings.TrimSpace(l) continue }`,
+		`if length != strings.TrimSpace(l) { return fmt.Errorf(`,
+		`req.Header.Set("Content-Length", length)`,
+		`tes := req.Header["Transfer-Encoding"]`,
+		`last := strings.Split(tes[len(tes)-1], ",")`,
+		`if strings.TrimSpace(last[len(last)-1]) != "chunked" { return errors.New(`,
+		`req.Header.Del("Content-Length")`,
+	} {
+		if !strings.Contains(srcB, want) {
+			return fmt.Errorf("NewBadFramingModifier: expected %q", want)
+		}
+	}
+
+	// ---- middlewareStack: order of the top group and of the inner group
+	hp, err := Parse(repo, "http_proxy.go")
+	if err != nil {
+		return err
+	}
+	ms, err := hp.Func("HTTPProxy.middlewareStack")
+	if err != nil {
+		return err
+	}
+	var top, inner, stackExtra []string
+	stackVar, innerVar := "", ""
+	ast.Inspect(ms.Body, func(x ast.Node) bool {
+		if as, ok := x.(*ast.AssignStmt); ok && len(as.Rhs) == 1 && strings.HasPrefix(hp.Src(as.Rhs[0]), "httpspec.NewStack(") && len(as.Lhs) == 2 {
+			stackVar, innerVar = hp.Src(as.Lhs[0]), hp.Src(as.Lhs[1])
+		}
+		return true
+	})
+	if stackVar == "" {
+		return fmt.Errorf("middlewareStack: `stack, fg := httpspec.NewStack(…)` not found")
+	}
+	short := func(arg ast.Expr) string {
+		s := hp.Src(arg)
+		switch {
+		case s == stackVar:
+			return "stack"
+		case s == "m":
+			return "user"
+		case strings.HasPrefix(s, "martian.RequestModifierFunc(") && strings.HasSuffix(s, ")"):
+			s = strings.TrimSuffix(strings.TrimPrefix(s, "martian.RequestModifierFunc("), ")")
+			return strings.TrimPrefix(s, "hp.")
+		case strings.HasPrefix(s, "hp.") && strings.Contains(s, "("):
+			return strings.TrimPrefix(s[:strings.Index(s, "(")], "hp.")
+		}
+		return s
+	}
+	for _, ce := range g01Calls(ms.Body) {
+		switch hp.Src(ce.Fun) {
+		case "topg.AddRequestModifier":
+			top = append(top, short(ce.Args[0]))
+		case innerVar + ".AddRequestModifier":
+			inner = append(inner, short(ce.Args[0]))
+		case stackVar + ".AddRequestModifier":
+			stackExtra = append(stackExtra, short(ce.Args[0]))
+		}
+	}
+	if len(top) == 0 || top[len(top)-1] != "stack" {
+		return fmt.Errorf("middlewareStack: the httpspec stack is not the last request modifier of the top group: %q", top)
+	}
+	for _, n := range inner {
+		if n != "user" && n != "setBasicAuth" && n != "setEmptyUserAgent" {
+			return fmt.Errorf("middlewareStack: inner request modifier %q is not one the model knows", n)
+		}
+	}
+	w.DefStrList("mw_top_order", top)
+	w.DefStrList("mw_inner_order", inner)
+	w.DefStrList("mw_stack_extra", stackExtra)
+	if !strings.Contains(hp.Src(ms.Body), "return topg.ToImmutable(), trace") {
+		return fmt.Errorf("middlewareStack: does not return topg.ToImmutable()")
+	}
+	// setEmptyUserAgent
+	su, err := hp.Func("setEmptyUserAgent")
+	if err != nil {
+		return err
+	}
+	if got := hp.Src(su.Body); !strings.HasPrefix(got, `{ if _, ok := req.Header["User-Agent"]; !ok {`) ||
+		!strings.Contains(got, `req.Header.Set("User-Agent", "")`) {
+		return fmt.Errorf("setEmptyUserAgent: body %q is not a shape the model knows", got)
+	}
+	// configureProxy: AllowHTTP and where the stack is installed
+	cp, err := hp.Func("HTTPProxy.configureProxy")
+	if err != nil {
+		return err
+	}
+	srcC := hp.Src(cp.Body)
+	switch {
+	case strings.Contains(srcC, "hp.proxy.AllowHTTP = true"):
+		w.DefBool("proxy_allow_http", true)
+	case strings.Contains(srcC, "hp.proxy.AllowHTTP = false") || !strings.Contains(srcC, "AllowHTTP"):
+		w.DefBool("proxy_allow_http", false)
+	default:
+		return fmt.Errorf("configureProxy: AllowHTTP assignment is not a literal")
+	}
+	if !strings.Contains(srcC, "mw, trace := hp.middlewareStack()") || !strings.Contains(srcC, "hp.proxy.RequestModifier = mw") {
+		return fmt.Errorf("configureProxy: middlewareStack is not installed as hp.proxy.RequestModifier")
+	}
+
+	// ---- proxy.go: fixRequestScheme, upgradeType
+	pg, err := Parse(repo, "internal/martian/proxy.go")
+	if err != nil {
+		return err
+	}
+	fs, err := pg.Func("Proxy.fixRequestScheme")
+	if err != nil {
+		return err
+	}
+	srcS := pg.Src(fs.Body)
+	for _, want := range []string{
+		`if req.URL.Scheme == "" { if proto := req.Header.Get("X-Forwarded-Proto"); proto != "" { req.URL.Scheme = proto } else if req.TLS != nil { req.URL.Scheme = "https" } else { req.URL.Scheme = "http" } }`,
+		`if req.URL.Scheme == "http" { if req.TLS != nil && !p.AllowHTTP {`,
+		`req.URL.Scheme = "https" } }`,
+	} {
+		if !strings.Contains(srcS, want) {
+			return fmt.Errorf("fixRequestScheme: expected %q in %q", want, srcS)
+		}
+	}
+	ut, err := pg.Func("upgradeType")
+	if err != nil {
+		return err
+	}
+	if got := pg.Src(ut.Body); got != `{ if !httpguts.HeaderValuesContainsToken(h["Connection"], "Upgrade") { return "" } return h.Get("Upgrade") }` {
+		return fmt.Errorf("upgradeType: body %q is not a shape the model knows", got)
+	}
+	// ---- proxy_conn.go handle: the re-add block
+	pc, err := Parse(repo, "internal/martian/proxy_conn.go")
+	if err != nil {
+		return err
+	}
+	hd, err := pc.Func("proxyConn.handle")
+	if err != nil {
+		return err
+	}
+	if !strings.Contains(pc.Src(hd.Body), `if reqUpType != "" { req.Header.Set("Connection", "Upgrade") req.Header.Set("Upgrade", reqUpType) }`) {
+		return fmt.Errorf(`handle: block if reqUpType != "" { Set Connection: Upgrade; Set Upgrade: reqUpType } not found`)
+	}
 	return nil
 }
